@@ -4,7 +4,7 @@ CONSTANT CoefSel = "full"
 CONSTANT XIds = {1, 2, 3, 4, 5, 6, 7}
 CONSTANT ZIds = {1, 3}
 CONSTANT HIds = {1, 3, 7}
-CONSTANT Lays = {1, 2, 3, 4, 5}
+CONSTANT Lays = {1, 2, 3, 4, 5, 6, 7, 8}
 CONSTANT Mod = 1
 CONSTANT TsMod = 3
 INIT Init
@@ -31,5 +31,6 @@ INVARIANT C13_TsetWLS
 INVARIANT C13_FitThenEvaluate
 INVARIANT C13_XNormLaws
 INVARIANT C13_GridLaws
+INVARIANT C13_RowIndependence
 INVARIANT C13_IgnoreJump
 CHECK_DEADLOCK FALSE
